@@ -53,6 +53,7 @@ RbCfg(calls) ==
 ApplyItem(it, c) ==
     CASE c.c = "prefix"     -> [it EXCEPT !.prefix = c.v]
       [] c.c = "into_owned" -> it
+      [] c.c = "probe"      -> it          \* observing a builder (size / write) has no effect on it
 ItemCfg(calls) == FoldLeft(ApplyItem, [type |-> calls[1].type, value |-> calls[1].value, prefix |-> <<>>], Tail(calls))
 \* a prefix on a non-PRIV item has no effect on the wire
 ChunkCfg(v) == [ssrc |-> v.ssrc, items |-> [i \in 1..Len(v.adds) |-> ItemCfg(v.adds[i].item)]]
@@ -65,6 +66,7 @@ FirAdd(map, e) ==
 ApplyRpsi(r, c) ==
     CASE c.c = "pt"   -> [r EXCEPT !.pt = c.v]
       [] c.c = "data" -> [r EXCEPT !.data = c.v, !.bits = c.bits]
+      [] c.c = "probe" -> r
 FciCfg(v) ==
     CASE v.f = "nack" -> [f |-> "nack", set |-> ToSet(v.adds)]
       [] v.f = "fir"  -> [f |-> "fir", map |-> FoldLeft(FirAdd, <<>>, v.adds)]
@@ -110,6 +112,7 @@ ApplyCall(cfg, c) ==
       [] c.c = "media"      -> [cfg EXCEPT !.media = c.v]
       [] c.c = "payload"    -> [cfg EXCEPT !.payload = c.v]
       [] c.c = "add_packet" -> [cfg EXCEPT !.members = Append(@, BuildCfg(c.v.kind, c.v.calls))]
+      [] c.c = "probe"      -> cfg         \* observing a builder under construction has no effect on it
 
 BuildCfg(kind, calls) == FoldLeft(ApplyCall, NewCfg(kind, calls[1]), Tail(calls))
 
@@ -200,13 +203,29 @@ HdrOk(b, h, hasPadding) ==
 NoPanic(ev) ==
     IF PROPS \subseteq {"C08", "C18"} THEN (P("C08") => ev.hpanics = 0) ELSE ev.panics = <<>>
 
+\* A list-shaped accessor driven in other ways (nth on fresh iterators, repeated nth(1), skip, step_by, last,
+\* count, two interleaved iterators, size_hint) describes the same list as plain next() calls.
+AltOk(list, alt) ==
+    LET n == Len(list)
+    IN  /\ alt.n = n
+        /\ \A k \in 1..Len(alt.nth) : alt.nth[k][1] < n /\ alt.nth[k][2] = << list[alt.nth[k][1] + 1] >>
+        /\ alt.nth_end
+        /\ alt.nth_seq = [i \in 1..(n \div 2) |-> list[2 * i]]
+        /\ alt.skip = SubSeq(list, (n \div 2) + 1, n)
+        /\ alt.step = [i \in 1..((n + 2) \div 3) |-> list[3 * (i - 1) + 1]]
+        /\ alt.last = (IF n = 0 THEN <<>> ELSE << list[n] >>)
+        /\ alt.a = list /\ alt.b = list
+        /\ alt.hint[1] <= n /\ (alt.hint[2] = -1 \/ n <= alt.hint[2])
+
 \* ---- fixed-layout fields (C09)
 SrFieldsOk(b, v) ==
+    /\ AltOk([i \in 1..Len(v.blocks) |-> v.blocks[i].ssrc], v.blocks_alt)
     /\ v.ssrc = U32At(b, 5) /\ v.ntp = U64At(b, 9) /\ v.rtp = U32At(b, 17)
     /\ v.pkts = U32At(b, 21) /\ v.octets = U32At(b, 25)
     /\ v.n_reports = Count(b)
     /\ v.blocks = DecBlocks(b, 28, Count(b))
 RrFieldsOk(b, v) ==
+    /\ AltOk([i \in 1..Len(v.blocks) |-> v.blocks[i].ssrc], v.blocks_alt)
     /\ v.ssrc = U32At(b, 5) /\ v.n_reports = Count(b) /\ v.blocks = DecBlocks(b, 8, Count(b))
 
 ByeFieldsOk(b, v, base) ==
@@ -214,6 +233,7 @@ ByeFieldsOk(b, v, base) ==
         off == 4 + 4 * c
         end == Len(b) - PadCount(b)
     IN  /\ v.ssrcs = [i \in 1..c |-> U32At(b, 4 * i + 1)]
+        /\ AltOk(v.ssrcs, v.ssrcs_alt)
         /\ RegularPad(b, off) =>
               IF end = off THEN v.reason.some = 0
               ELSE (off + 1 + b[off + 1] <= end) =>
@@ -229,9 +249,9 @@ AppFieldsOk(b, v, base) ==
     /\ RegularPad(b, 12) => SlOk(v.data, 12, Len(b) - 12 - PadCount(b), base)
 
 \* ---- FCI decode laws (C15).  region = the FCI bytes (padding excluded), at 0-based offset roff of b
-NackLaw(region, r) == IsOk(r) => r.entries = DecNack(region)
-FirLaw(region, r)  == IsOk(r) => r.entries = DecFir(region)
-SliLaw(region, r)  == IsOk(r) => r.entries = DecSli(region)
+NackLaw(region, r) == IsOk(r) => (r.entries = DecNack(region) /\ AltOk(r.entries, r.entries_alt))
+FirLaw(region, r)  == IsOk(r) => (r.entries = DecFir(region) /\ AltOk(r.entries, r.entries_alt))
+SliLaw(region, r)  == IsOk(r) => (r.entries = DecSli(region) /\ AltOk(r.entries, r.entries_alt))
 PliLaw(region, r)  == IsOk(r) => region = <<>>
 RpsiLaw(region, r, roff, base) ==
     IsOk(r) =>
@@ -281,9 +301,15 @@ GotChunks(chunks, base) ==
     [i \in 1..Len(chunks) |-> [ssrc |-> chunks[i].ssrc,
                                items |-> [j \in 1..Len(chunks[i].items) |-> GotTok(chunks[i].items[j], base)]]]
 
+SdesAltOk(v) ==
+    /\ AltOk([i \in 1..Len(v.chunks) |-> v.chunks[i].ssrc], v.chunks_alt)
+    /\ \A i \in 1..Len(v.chunks) :
+          AltOk([j \in 1..Len(v.chunks[i].items) |-> << v.chunks[i].items[j].type, v.chunks[i].items[j].value.o >>],
+                v.chunks[i].items_alt)
 SdesFieldsOk(b, v, base) ==
     LET vd == SdesVerdict(b)
-    IN  CASE vd.v = "must" ->
+    IN  /\ SdesAltOk(v)
+        /\ CASE vd.v = "must" ->
                 /\ Len(v.chunks) = Len(vd.chunks)
                 /\ \A i \in 1..Len(vd.chunks) : ChunkGotOk(b, vd.chunks[i], v.chunks[i], base, TRUE)
           [] vd.v = "either" -> vd.irregular \/ ConsistentTokens(b, GotChunks(v.chunks, base))
@@ -314,9 +340,14 @@ DecCfg(kind, b) ==
 \* well-formed packets of an independent RFC encoder are always accepted (C09):
 \* b is in the range of the spec's encoder for a configuration the builders accept
 MustAccept(kind, b) ==
-    CASE kind \in {"sr", "rr", "app", "bye"} ->
+    CASE kind \in {"app", "bye"} ->
             /\ CanAccept(kind, b) /\ RegularPad(b, MinLen(kind))
             /\ LET c == DecCfg(kind, b) IN LocalRules(c) = {} /\ Image(c) = b
+      \* SR / RR: the fixed part and the announced report blocks, then any profile-specific extension
+      \* (RFC 3550 6.4.1, 6.4.2), then regular padding: every such string is a well-formed report
+      [] kind \in {"sr", "rr"} ->
+            /\ CanAccept(kind, b) /\ RegularPad(b, MinLen(kind) + 24 * Count(b))
+            /\ AllZero(b, Len(b) - PadCount(b) + 1, Len(b) - 1)
       [] kind \in {"tfb", "pfb"} -> CanAccept(kind, b) /\ RegularPad(b, 12) /\ AllZero(b, Len(b) - PadCount(b) + 1, Len(b) - 1)
       [] kind = "sdes" -> CanAccept(kind, b) /\ SdesVerdict(b).v = "must"
                           /\ AllZero(b, Len(b) - PadCount(b) + 1, Len(b) - 1)
@@ -342,6 +373,8 @@ UnknownViewOk(b, v, base) ==
 
 ViewOk(kind, b, v, base) ==
     /\ kind \in PacketKinds => (P("C08") => HdrOk(b, v.hdr, TRUE))
+    \* reading every accessor a second time on the same value gives the same view
+    /\ (Has(v, "again") /\ (P("C01") \/ P("C09") \/ P("C10") \/ P("C12") \/ P("C15"))) => v.again
     /\ CASE kind = "sr"   -> P("C09") => SrFieldsOk(b, v)
          [] kind = "rr"   -> P("C09") => RrFieldsOk(b, v)
          [] kind = "bye"  -> P("C09") => ByeFieldsOk(b, v, base)
@@ -718,10 +751,19 @@ Conf(ev) ==
       [] ev.op = "parse"       -> ParseEvConf(ev)
       [] ev.op = "parse_all"   -> ParseAllConf(ev)
       [] ev.op = "parse_pad"   -> ParsePadConf(ev)
-      [] ev.op = "cparse"      -> /\ CParseConf(ev.b, ev.res, TilingFor(ev))
-                                  \* C14 / C19: the image of a compound with at least one leaf packet parses as a compound
-                                  /\ ((P("C14") \/ P("C19")) /\ RtCtx(ev) /\ bld.cfg.kind = "compound" /\ Leaves(bld.cfg) # <<>>) =>
-                                        (ev.b = img /\ IsOk(ev.res))
+      [] ev.op = "cparse"      ->
+            LET tl == TilingFor(ev)
+            IN  /\ CParseConf(ev.b, ev.res, tl)
+                \* the iterator driven in other ways (nth, skip, step_by, two at once) yields the same sequence
+                /\ ((P("C01") \/ P("C11") \/ P("C14")) /\ IsOk(ev.res)) =>
+                      /\ ~Has(ev, "alt_panic")
+                      /\ Has(ev, "alt") =>
+                            /\ AltOk(ev.alt_seq, ev.alt)
+                            /\ Len(ev.alt_seq) <= Len(tl.tiles)
+                            /\ \A i \in 1..Len(ev.alt_seq) : ev.alt_seq[i][1] = 1 => ev.alt_seq[i][3] = tl.tiles[i][2]
+                \* C14 / C19: the image of a compound with at least one leaf packet parses as a compound
+                /\ ((P("C14") \/ P("C19")) /\ RtCtx(ev) /\ bld.cfg.kind = "compound" /\ Leaves(bld.cfg) # <<>>) =>
+                      (ev.b = img /\ IsOk(ev.res))
       [] ev.op = "cnext"       -> IF cit.valid THEN CNextConf(cit, ev) ELSE ev.res.t = "closed"
       [] ev.op = "nack_open"   -> (P("C01") \/ P("C15")) => IsOk(ev.res)
       [] ev.op = "nack_next"   -> NackNextConf(nit.its[ev.it + 1], ev.res)
